@@ -88,6 +88,27 @@ def main():
   del remembered[:], converted[:]
   if api.converted_call(len, ([1, 2],), None, options=rec) != 2 or converted or remembered:
     failures.append(dict(kind='policy', sig='builtin', what='builtin not routed to its overload'))
+  # native callables that are NOT the Python builtins are called as they are, whatever their __name__ (the overload
+  # of a builtin is chosen by the identity of the function, not by its name)
+  import decimal
+  import math
+  import operator
+  dctx = decimal.Context(prec=2)
+  for label, f, args in (('native-named-like-a-builtin:decimal.Context.abs', dctx.abs, (decimal.Decimal('-1.234'),)),
+                         ('native-named-like-a-builtin:operator.abs', operator.abs, (-3,)),
+                         ('native:math.sqrt', math.sqrt, (16.0,)),
+                         ('native:list.index', [3, 1, 2].index, (1,)),
+                         ('native:str.split', 'a-b'.split, ('-',))):
+    n += 1
+    del remembered[:], converted[:]
+    want = f(*args)
+    try:
+      got = api.converted_call(f, args, None, options=rec)
+      if got != want or type(got) is not type(want) or converted:
+        failures.append(dict(kind='policy', sig=label, what='%s%r through converted_call gives %r, the direct call gives %r'
+                                                            % (label, args, got, want)))
+    except Exception as e:  # pylint:disable=broad-except
+      failures.append(dict(kind='policy', sig=label, what='%s%r: raised %s: %s' % (label, args, type(e).__name__, str(e)[:100])))
   # constructor: unsupported -> unconverted, remembered
 
   class K(object):
